@@ -34,3 +34,9 @@ PROPS['C33'] = dict(
                'delivery at quiescence with a 15 s bound. One pipeline per manager; StorePipelineState/ListLogs errors and driver start-up (DriverFacade not ready = a refused batch) '
                'are not generated. Crash (process death) is in the model but cannot be produced in-process by the harness. KF-C33-late-store-after-reset is repaired (fixes/repl-01); the model follows the repaired code.',
 )
+
+# periodic synchronisation vs ResetPipeline (harness/go/vh/repl_sync.go): dedicated scenario, monitor only
+PROPS['C33']['ties'].append(dict(name='TIE-S replsync', vh='replsync', model=None, n=dict(quick=12, thorough=300), kinds=['C33'], case_head='replsync', replayable=False))
+PROPS['C33']['explanation'] += (' TIE-S replsync: the real Manager with its periodic synchronisation running (25 ms), a pipeline enabled in the table but not running (after StopPipeline), a '
+                                'ListEnabledPipelines that is slow to answer and a ResetPipeline issued meanwhile: after the acknowledged reset every log must reach the exporter again and the '
+                                'stored position must not be ahead of it (monitor [reset-lost-to-stale-sync]); this scenario has no model side (Repl/Model.v has no periodic synchronisation).')
